@@ -42,6 +42,11 @@ var (
 
 // collidingTexts returns perHash pairs of distinct equal-length texts gen(i), gen(j) for each hash function.
 func collidingTexts(family string, gen func(i int) string, perHash int) []collidingPair {
+	return collidingTextsFor(family, gen, perHash, nil)
+}
+
+// collidingTextsFor restricts the search to the named hash functions (nil = all).
+func collidingTextsFor(family string, gen func(i int) string, perHash int, only []string) []collidingPair {
 	collideMu.Lock()
 	defer collideMu.Unlock()
 	if r, ok := collideCache[family]; ok {
@@ -49,6 +54,9 @@ func collidingTexts(family string, gen func(i int) string, perHash int) []collid
 	}
 	var out []collidingPair
 	for _, h := range collideHashes {
+		if only != nil && !containsStr(only, h.Name) {
+			continue
+		}
 		seen := make(map[uint64]int, 1<<18)
 		found := 0
 		for i := 0; i < 1<<21 && found < perHash; i++ {
@@ -75,4 +83,13 @@ func collidingTexts(family string, gen func(i int) string, perHash int) []collid
 	}
 	collideCache[family] = out
 	return out
+}
+
+func containsStr(l []string, s string) bool {
+	for _, x := range l {
+		if x == s {
+			return true
+		}
+	}
+	return false
 }
